@@ -154,7 +154,11 @@ func main() {
 					continue
 				}
 				fmt.Fprintf(os.Stderr, "vinstr: NOTE new package %s imported by %s is instrumented too\n", d, targets[i].dir)
-				targets = append(targets, pkgConf{dir: d, chans: true, ctx: targets[i].ctx})
+				if targets[i].timersOnly {
+					targets = append(targets, pkgConf{dir: d, timersOnly: true}) // runs in real processes, like its importer
+				} else {
+					targets = append(targets, pkgConf{dir: d, chans: true, ctx: targets[i].ctx})
+				}
 				targetPkgs[imp] = true
 			}
 		}
